@@ -250,10 +250,10 @@ impl FileReader for IOFileReader {
                 let parent = parent.parent().ok_or(FileReaderError::InvalidPath)?;
                 // One name per file: `a.s`, `./a.s` and `../d/a.s` can be the
                 // same file, and an include cycle is recognised by the name
-                let joined = parent.join(path);
-                joined
-                    .canonicalize()
-                    .unwrap_or(joined)
+                // (by the text of the name: a symbolic link keeps the name the
+                // program gives it, so that what it includes in turn is looked
+                // up next to the link)
+                normalize(&parent.join(path))
                     .to_str()
                     .ok_or(FileReaderError::InvalidPath)?
                     .to_owned()
@@ -295,6 +295,27 @@ impl FileReader for IOFileReader {
     fn get_base_file(&self) -> Option<uuid::Uuid> {
         self.base_file
     }
+}
+
+/// A path without `.` components and without `name/..` pairs.
+fn normalize(path: &std::path::Path) -> PathBuf {
+    use std::path::Component;
+    let mut out = PathBuf::new();
+    for part in path.components() {
+        match part {
+            Component::CurDir => {}
+            Component::ParentDir => {
+                let last_is_name = matches!(out.components().next_back(), Some(Component::Normal(_)));
+                if last_is_name {
+                    out.pop();
+                } else if !matches!(out.components().next_back(), Some(Component::RootDir)) {
+                    out.push("..");
+                }
+            }
+            other => out.push(other.as_os_str()),
+        }
+    }
+    out
 }
 
 fn main() {
